@@ -243,7 +243,8 @@ passes the filter and `j` is the position of its parent id; rows and columns lab
 def adjMatW (c : Cmp) (k : Int) (t : Table) : LMat Bool :=
   ⟨ids t, ids t, t.map fun nd => (List.range t.length).map fun j => c.evalInt nd.parent k && ((ids t).idxOf nd.parent == j)⟩
 
-/-- `sort=True`: `adj.loc[sort, sort]` for the label order `p` returned by `node_label_sorting`. -/
+/-- `sort=True`: `adj.loc[sort, sort]` for the label order `p` returned by `node_label_sorting` (a permutation of the
+node ids; fragmented skeletons are sorted tree by tree). -/
 def adjSorted (c : Cmp) (k : Int) (t : Table) (p : List Int) : LMat Bool := (adjMatW c k t).reindex false p
 
 /-! ### `distal_to` -/
